@@ -20,24 +20,31 @@
 package main
 
 import (
+	"bytes"
 	"fmt"
 	"go/ast"
 	"go/parser"
+	"go/printer"
 	"go/token"
 	"os"
 	"path/filepath"
+	"sort"
 	"strings"
 )
 
 type impTarget struct {
 	dir, file, ns, out string
 	funcs              []string
+	abstract           []string // package-local functions called as ABSTRACT parameters (hash arguments dropped); their source text is
+	// emitted as `abstractSrc` so that an edit of them breaks the proofs that pin it
 }
 
 var impTargets = []impTarget{
 	{dir: "fiat-shamir", file: "transcript.go", ns: "FiatShamir", out: "Imp/Transcript.lean",
 		funcs: []string{"NewTranscript", "Bind", "ComputeChallenge"}},
 	{dir: "internal/parallel", file: "execute.go", ns: "Parallel", out: "Imp/Execute.lean", funcs: []string{"Execute"}},
+	{dir: "accumulator/merkletree", file: "verify.go", ns: "MerkleVerify", out: "Imp/MerkleVerify.lean", funcs: []string{"VerifyProof"},
+		abstract: []string{"leafSum", "nodeSum", "sum"}},
 }
 
 // ---------------------------------------------------------------------------------------------- types
@@ -50,6 +57,7 @@ type ity struct {
 }
 
 var (
+	tyU64    = &ity{k: "uint64"}
 	tyInt    = &ity{k: "int"}
 	tyBool   = &ity{k: "bool"}
 	tyString = &ity{k: "string"}
@@ -92,13 +100,30 @@ type impField struct {
 }
 
 type impPkg struct {
-	tg      impTarget
-	fset    *token.FileSet
-	structs map[string][]impField
-	order   []string          // struct names in source order
-	errVars map[string]string // sentinel name -> message
-	errOrd  []string
-	funcs   map[string]*ast.FuncDecl
+	tg        impTarget
+	fset      *token.FileSet
+	structs   map[string][]impField
+	order     []string          // struct names in source order
+	errVars   map[string]string // sentinel name -> message
+	errOrd    []string
+	funcs     map[string]*ast.FuncDecl
+	absDecl   map[string]*ast.FuncDecl
+	absCalled []string
+}
+
+var impAbsParams, impAbsArgs string // abstract function parameters carried by every def of the current target
+
+func comparedWithNil(body ast.Node, x string) bool {
+	r := false
+	ast.Inspect(body, func(n ast.Node) bool {
+		if b, ok := n.(*ast.BinaryExpr); ok && (b.Op == token.EQL || b.Op == token.NEQ) {
+			if id, ok := b.Y.(*ast.Ident); ok && id.Name == "nil" && exprText(b.X) == x {
+				r = true
+			}
+		}
+		return true
+	})
+	return r
 }
 
 func (p *impPkg) die(n ast.Node, f string, a ...any) {
@@ -115,6 +140,8 @@ func (p *impPkg) goType(e ast.Expr) *ity {
 		switch v.Name {
 		case "int":
 			return tyInt
+		case "uint64", "uint": // 64-bit platforms; values are Nat < 2^64, every operation reduces explicitly
+			return tyU64
 		case "bool":
 			return tyBool
 		case "string":
@@ -177,6 +204,12 @@ func (p *impPkg) lty(t *ity, qual bool) string {
 	switch t.k {
 	case "int":
 		return "Int"
+	case "uint64":
+		return "Nat"
+	case "nslice":
+		return "Option " + p.ltyA(t.elem, qual)
+	case "absfn":
+		return t.name
 	case "bool":
 		return "Bool"
 	case "string":
@@ -220,7 +253,7 @@ func (p *impPkg) ltyA(t *ity, qual bool) string {
 
 func (p *impPkg) zero(t *ity) string {
 	switch t.k {
-	case "int", "byte":
+	case "int", "byte", "uint64":
 		return "0"
 	case "bool":
 		return "false"
@@ -245,7 +278,7 @@ func (p *impPkg) zero(t *ity) string {
 // ---------------------------------------------------------------------------------------------- loading
 
 func loadImp(tg impTarget) *impPkg {
-	p := &impPkg{tg: tg, fset: token.NewFileSet(), structs: map[string][]impField{}, errVars: map[string]string{}, funcs: map[string]*ast.FuncDecl{}}
+	p := &impPkg{tg: tg, fset: token.NewFileSet(), structs: map[string][]impField{}, errVars: map[string]string{}, funcs: map[string]*ast.FuncDecl{}, absDecl: map[string]*ast.FuncDecl{}}
 	f, err := parser.ParseFile(p.fset, filepath.Join(repo, tg.dir, tg.file), nil, parser.ParseComments)
 	if err != nil {
 		die("imp: parse: %v", err)
@@ -299,7 +332,61 @@ func loadImp(tg impTarget) *impPkg {
 			p.funcs[v.Name.Name] = v
 		}
 	}
+	// abstract package-local functions: found in any non-test file of the package
+	if len(tg.abstract) > 0 {
+		files, _ := filepath.Glob(filepath.Join(repo, tg.dir, "*.go"))
+		sort.Strings(files)
+		for _, fn := range files {
+			if strings.HasSuffix(fn, "_test.go") {
+				continue
+			}
+			af, err := parser.ParseFile(p.fset, fn, nil, 0)
+			if err != nil {
+				die("imp: parse: %v", err)
+			}
+			for _, d := range af.Decls {
+				if fd, ok := d.(*ast.FuncDecl); ok && fd.Recv == nil {
+					for _, a := range tg.abstract {
+						if fd.Name.Name == a {
+							p.absDecl[a] = fd
+						}
+					}
+				}
+			}
+		}
+		for _, a := range tg.abstract {
+			if p.absDecl[a] == nil {
+				die("imp: %s: abstract function %s not found", tg.dir, a)
+			}
+		}
+	}
 	return p
+}
+
+// Lean type of an abstract function (hash.Hash parameters dropped, variadic = list) and the indices of its kept parameters
+func (p *impPkg) absSig(name string) (string, []*ity, *ity) {
+	fd := p.absDecl[name]
+	var ts []string
+	var tys []*ity
+	for _, fl := range fd.Type.Params.List {
+		t := p.paramType(fl.Type)
+		n := len(fl.Names)
+		if n == 0 {
+			n = 1
+		}
+		for i := 0; i < n; i++ {
+			tys = append(tys, t)
+			if t.k != "hash" {
+				ts = append(ts, p.ltyA(t, false))
+			}
+		}
+	}
+	if fd.Type.Results == nil || len(fd.Type.Results.List) != 1 {
+		p.die(fd, "abstract function must have one result")
+	}
+	rt := p.paramType(fd.Type.Results.List[0].Type)
+	ts = append(ts, p.ltyA(rt, false))
+	return strings.Join(ts, " → "), tys, rt
 }
 
 func exprText(e ast.Expr) string {
@@ -397,8 +484,18 @@ func (p *impPkg) translateFunc(name string) string {
 		if _, ok := fl.Type.(*ast.StarExpr); ok {
 			p.die(fl, "pointer parameter (outside the subset: only the receiver is passed by reference)")
 		}
-		t := p.paramType(fl.Type)
+		t0 := p.paramType(fl.Type)
 		for _, n := range fl.Names {
+			t := t0
+			if t.k == "slice" && comparedWithNil(fd.Body, n.Name) {
+				// the one place where nil and empty differ: the parameter is an Option, every other use must be guarded
+				t = &ity{k: "nslice", elem: t0}
+				for _, a := range f.assignedAnywhere(fd.Body) {
+					if a == n.Name {
+						p.die(fl, "parameter %s is compared with nil and assigned", n.Name)
+					}
+				}
+			}
 			f.declare(fl, n.Name, t)
 			if t.k == "events" {
 				// the callback is not a Lean parameter: the list of its calls is threaded like a receiver and returned
@@ -458,6 +555,7 @@ func (p *impPkg) translateFunc(name string) string {
 
 func runImp() {
 	for _, tg := range impTargets {
+		impAbsParams, impAbsArgs = "", ""
 		out := filepath.Join(outDir, tg.out)
 		dieHook = func() { os.Remove(out) } // a failed translation must not leave the previous run's file behind
 		p := loadImp(tg)
@@ -476,6 +574,39 @@ func runImp() {
 				fmt.Fprintf(&b, "  %s : %s := %s\n", fl.name, p.lty(fl.ty, false), p.zero(fl.ty))
 			}
 			fmt.Fprintf(&b, "deriving Repr, DecidableEq\ninstance : Inhabited %s := ⟨{}⟩\n\n", sn)
+		}
+		if len(tg.abstract) > 0 {
+			// only the functions that the translated ones call directly become parameters; the others are pinned by their text
+			b.WriteString("/-- source text of the package-local functions that are NOT translated (called as abstract parameters, or reached from\nthose): pinned by a theorem of the property file, so that an edit of them breaks the tie -/\ndef abstractSrc : List (String × String) := [\n")
+			for i, a := range tg.abstract {
+				var buf bytes.Buffer
+				printer.Fprint(&buf, p.fset, p.absDecl[a].Body)
+				sep := ","
+				if i == len(tg.abstract)-1 {
+					sep = ""
+				}
+				fmt.Fprintf(&b, "  (%q, %q)%s\n", a, strings.Join(strings.Fields(buf.String()), " "), sep)
+			}
+			b.WriteString("]\n\n")
+			called := map[string]bool{}
+			for _, fn := range tg.funcs {
+				ast.Inspect(p.funcs[fn].Body, func(n ast.Node) bool {
+					if c, ok := n.(*ast.CallExpr); ok {
+						if id, ok := c.Fun.(*ast.Ident); ok && p.absDecl[id.Name] != nil {
+							called[id.Name] = true
+						}
+					}
+					return true
+				})
+			}
+			for _, a := range tg.abstract {
+				if called[a] {
+					sig, _, _ := p.absSig(a)
+					impAbsParams += " (" + a + " : " + sig + ")"
+					impAbsArgs += " " + a
+					p.absCalled = append(p.absCalled, a)
+				}
+			}
 		}
 		for _, fn := range tg.funcs {
 			b.WriteString(p.translateFunc(fn))
